@@ -270,4 +270,18 @@ var props = map[string]*propCfg{
 		Thorough: []legCfg{mc("scanners", "MC_C17", "C17_thorough.cfg", 30*time.Minute), mc("proj", "MC_C02", "C17_C02.cfg", 10*time.Minute), mc("matrix", "MC_C12", "C12_thorough.cfg", 10*time.Minute),
 			mc("compose", "MC_C07", "C11_C07.cfg", 10*time.Minute), mc("where", "MC_C01", "C11_C01.cfg", 10*time.Minute)},
 	},
+	"C10": {
+		ID: "C10", Level: "exploration",
+		Rule:        "Contain.tla models one New + Exec call passing through its regions with a panic possible at every step in the API goroutine and in every background goroutine (strategy calls, PARALLEL join workers) and a re-entrant CTE resolution; TLC checks that the process survives, nothing escapes the API and the call returns, and that removing any one recover (or the CTE guard) violates that - the five deviation configurations are the pinned tree's gaps. Binding by exploration: TLC enumerates the matrix of 102 constructs (every unsupported / malformed / failing construct the property names and many more: joins without condition, chained unions, self- and mutually-referencing CTEs, unbalanced brackets, out-of-range FROM paths, PARALLEL joins and ASYNC / SPIN / SPINASYNC / ONCE calls whose function fails or panics with an error or a non-error value, panics inside CTE bodies / derived tables / subqueries, DISTINCT over a subquery plus *, deep nesting, malformed and non-SELECT statements, NUL bytes, invalid UTF-8, ...) x all 8 combinations of Wrapped / PostgresEscapingDialect / IdiomaticArrays x {well-shaped, empty, wrong-shaped} documents; every cell is executed, followed by 6 (thorough: 60) seeded byte-level mutations of its text: New / Exec must return. A panic escaping the API is caught by the worker; a dying process (goroutine panic, fatal error, stack overflow) or a case exceeding its time limit is attributed to the cell by the orchestrator. Non-trivial: every cell; distinct = distinct (construct, options, document).",
+		Assumptions: append([]string{"'for all byte strings' is sampled: the exact matrix cells plus seeded mutations around them; inputs the harness does not run are not decided", "a hang is a case that does not answer within 20 s"}, baseAssumptions...),
+		Quick: []legCfg{
+			{Kind: "mc", Name: "contain", Module: "Contain", Cfg: "Contain_ok.cfg", Timeout: 5 * time.Minute, TLCWorkers: 2, NoExport: true},
+			{Kind: "mc", Name: "dev_new", Module: "Contain", Cfg: "Contain_dev_new.cfg", Timeout: 5 * time.Minute, TLCWorkers: 1, NoExport: true, Expect: "NothingEscapes"},
+			{Kind: "mc", Name: "dev_post", Module: "Contain", Cfg: "Contain_dev_post.cfg", Timeout: 5 * time.Minute, TLCWorkers: 1, NoExport: true, Expect: "NothingEscapes"},
+			{Kind: "mc", Name: "dev_strategy", Module: "Contain", Cfg: "Contain_dev_strategy.cfg", Timeout: 5 * time.Minute, TLCWorkers: 1, NoExport: true, Expect: "ProcessSurvives"},
+			{Kind: "mc", Name: "dev_join", Module: "Contain", Cfg: "Contain_dev_join.cfg", Timeout: 5 * time.Minute, TLCWorkers: 1, NoExport: true, Expect: "ProcessSurvives"},
+			{Kind: "mc", Name: "dev_cte", Module: "Contain", Cfg: "Contain_dev_cte.cfg", Timeout: 5 * time.Minute, TLCWorkers: 1, NoExport: true, Expect: "ProcessSurvives"},
+			mc("matrix", "MC_C10", "C10_matrix.cfg", 30*time.Minute),
+		},
+	},
 }
